@@ -93,6 +93,43 @@ def make_source(kind, data, fmt, tmpdir, rng):
             fp.setnchannels(channels)
             fp.writeframes(data)
         return WaveAudioSource(path), (lambda: None)
+    if kind == "raw_fifo":
+        # a "raw file" that is a named pipe fed by a bursty writer: sizes reported by the file system mean nothing, reads may
+        # come back short at the OS level
+        import time as _time
+
+        path = os.path.join(tmpdir, "s.fifo")
+        if os.path.exists(path):
+            os.unlink(path)
+        os.mkfifo(path)
+        chunks, i = [], 0
+        while i < len(data):
+            k = rng.randint(1, 7)
+            chunks.append(data[i : i + k])
+            i += k
+
+        def feed():
+            try:
+                with open(path, "wb", buffering=0) as w:
+                    for c in chunks:
+                        w.write(c)
+                        _time.sleep(0)
+            except OSError:
+                pass
+
+        th = threading.Thread(target=feed, daemon=True, name="vf-fifo-feeder")
+        th.start()
+
+        def cleanup_fifo():
+            # release a writer still blocked in open() (the source was never opened) and wait for it
+            try:
+                fd = os.open(path, os.O_RDONLY | os.O_NONBLOCK)
+                os.close(fd)
+            except OSError:
+                pass
+            th.join(5)
+
+        return RawAudioSource(path, rate, width, channels), cleanup_fifo
     if kind == "stdin":
         old = sys.stdin
         ps = PipeStdin(data, rng)
@@ -148,6 +185,8 @@ def applicable(kind, op):
         return False
     if name == "second_source" and not kind.startswith("stdin"):
         return False
+    if kind == "raw_fifo" and name in ("close", "open") and op != ("open",):
+        return False
     return True
 
 
@@ -198,8 +237,14 @@ def run_history(ctx, kind, data, fmt, ops, tmpdir, rng):
                     ctx.count("second_source_objects_on_one_stdin")
             elif name == "read":
                 exp = m.read(op[1])
+                size = op[1]
+                if isinstance(size, int) and (i + len(ops)) % 4 == 1:
+                    import numpy as _np
+
+                    size = (_np.int64, _np.int32, _np.intp)[i % 3](size)  # sizes that come out of numpy arithmetic
+                    ctx.count("reads_with_numpy_integer_sizes")
                 try:
-                    got = src.read(op[1])
+                    got = src.read(size)
                 except IOERR as exc:
                     if exp[0] != "err":
                         ctx.violation("read-raises-io-error-on-open-source", dict(w, exception=repr(exc)[:200]))
@@ -430,7 +475,7 @@ def run_shard(ctx):
             n = len(data) // (width * channels)
             ops = random_ops(rng, n, rate)
             # the same history on every kind, in lock-step on the same audio
-            for kind in ("buffer", "raw", "wav", "stdin", "stdin_file"):
+            for kind in ("buffer", "raw", "wav", "stdin", "stdin_file", "raw_fifo"):
                 run_history(ctx, kind, data, (rate, width, channels), ops, tmpdir, rng)
             if (i & 15) == 0 and ctx.out_of_time():
                 break
@@ -452,6 +497,6 @@ def replay(ctx, case):
 def inconclusive(merged, tier):
     c = merged["counters"]
     need = ["chunks_checked", "reads_at_end", "io_errors_when_not_open", "position_reads", "position_sets", "position_index_errors",
-            "negative_position_sets", "histories_buffer", "histories_raw", "histories_wav", "histories_stdin", "histories_stdin_file", "large_stdin_read_histories", "second_source_objects_on_one_stdin", "exhaustive_histories",
+            "negative_position_sets", "histories_buffer", "histories_raw", "histories_wav", "histories_stdin", "histories_stdin_file", "histories_raw_fifo", "reads_with_numpy_integer_sizes", "large_stdin_read_histories", "second_source_objects_on_one_stdin", "exhaustive_histories",
             "ops_pos_s", "ops_pos_ms", "ops_rewind", "ops_close", "long_buffer_histories", "repo_tests_source_reads_checked"]
     return [f"monitor never observed {k}" for k in need if c.get(k, 0) == 0]
